@@ -150,7 +150,8 @@ pub fn run(args: &Args) -> i32 {
     let cfgs: Vec<(&str, &str, Vec<u8>, u8)> = if args.thorough() {
         vec![("map", "B1", vec![2, 2, 1], 3), ("list", "B1", vec![3, 2], 2), ("text", "B2", vec![2, 2], 2), ("map", "B0", vec![2, 2, 2], 2)]
     } else {
-        vec![("map", "B1", vec![2, 1, 1], 2), ("list", "B1", vec![2, 2], 1), ("text", "B2", vec![2, 1], 1)]
+        // B0: deliveries into a document that has no applied change at all (only held ones)
+        vec![("map", "B1", vec![2, 1, 1], 2), ("list", "B1", vec![2, 2], 1), ("text", "B2", vec![2, 1], 1), ("map", "B0", vec![2, 1], 1)]
     };
     for (theme, bname, edits, merges) in cfgs {
         let mut h = History::new(theme, bname, enc, &edits, merges);
